@@ -250,6 +250,8 @@ def stubchain_instance(ctx, R):
         st.heap[("self", "options")] = DictV({k: Opaque("opt:%s" % k) for k in dd.items}, ident="P:self.options")
         st.env.vars[f.params[0]] = s
         init = [["a0", "a1"], ["b0"], ["c0", "c1"], ["d0"]]
+        if getattr(ctx, "params", None) and ctx.params.get("big_instances"):
+            init = [["a0", "a1", "a2"], ["b0"], ["c0", "c1"], ["d0"], ["e0", "e1", "e2"], ["f0"], ["g0", "g1"]]
         layers = Seq("list", [Seq("list", [Opaque(n_, cls=NODE, kind="obj") for n_ in l], ident="L%d" % i) for i, l in enumerate(init)], ident="LAYERS")
         # the variable that is returned holds the layers
         rets = [n_ for n_ in body if isinstance(n_, ast.Return)]
@@ -259,7 +261,7 @@ def stubchain_instance(ctx, R):
         final = r.value if r is not None else None
         got = [sorted(key(x) for x in l.items) for l in final.items] if isinstance(final, Seq) and all(isinstance(l, Seq) for l in final.items) else None
         want = [sorted(l) for l in _expected_chains(init)]
-        R.check(got == want, "C04.STUBCHAIN", "overlap|4-layer instance", where(f, body[start]), "every label of layer k owns exactly one stub in each nearer layer, chained from the label outward to the axis",
+        R.check(got == want, "C04.STUBCHAIN", "overlap|%d-layer instance" % len(init), where(f, body[start]), "every label of layer k owns exactly one stub in each nearer layer, chained from the label outward to the axis",
                 "on the instance %s the stub phase produces %s, expected %s: every label of layer k must own exactly one stub per nearer layer, each created from the previous one" % (init, got, want))
         R.check(bool(log) and all(w == "opt:stubWidth" for _, w in log), "C04.STUBCHAIN", "overlap|stub width", where(f), "stubs are created with the configured stub width", "createStub is called with widths %s, expected options['stubWidth']" % sorted({w for _, w in log}))
     # --- simple ---
@@ -271,7 +273,7 @@ def stubchain_instance(ctx, R):
     s = Opaque("self", cls=P.cls(D), kind="obj")
     dd = ev.resolve_global("distributor", "DEFAULT_OPTIONS")
     st.heap[("self", "options")] = DictV({k: Opaque("opt:%s" % k) for k in dd.items}, ident="P:self.options")
-    names = ["n%d" % i for i in range(7)]
+    names = ["n%d" % i for i in range(13 if getattr(ctx, "params", None) and ctx.params.get("big_instances") else 7)]
     nodes = Seq("list", [Opaque(n_, cls=NODE, kind="obj") for n_ in names], ident="NODES")
     r = ev.call_closure(Closure(g, None, selfv=s), [nodes], {}, st)
     init = [[], [], []]
@@ -279,8 +281,8 @@ def stubchain_instance(ctx, R):
         init[i % 3].append(n_)
     want = [sorted(l) for l in _expected_chains(init)]
     got = [sorted(key(x) for x in l.items) for l in r.items] if isinstance(r, Seq) and all(isinstance(l, Seq) for l in r.items) else None
-    R.check(got == want, "C04.SIMPLE", "simple|7 labels in 3 layers", where(g), "label i goes to layer i % n with one chained stub in each nearer layer",
-            "for 7 labels and 3 layers algorithm_simple returns %s, expected %s (label i in layer i %% 3, plus one stub per nearer layer chained from the label)" % (got, want))
+    R.check(got == want, "C04.SIMPLE", "simple|%d labels in 3 layers" % len(names), where(g), "label i goes to layer i % n with one chained stub in each nearer layer",
+            "for these labels and 3 layers algorithm_simple returns %s, expected %s (label i in layer i %% 3, plus one stub per nearer layer chained from the label)" % (got, want))
     R.check(bool(log) and all(w == "opt:stubWidth" for _, w in log), "C04.STUBCHAIN", "simple|stub width", where(g), "stubs are created with the configured stub width", "createStub is called with widths %s, expected options['stubWidth']" % sorted({w for _, w in log}))
     # the number of layers is the estimate
     cs = [c for c in calls_in(g.node) if isinstance(c.func, ast.Attribute) and c.func.attr == "estimateRequiredLayers"]
